@@ -546,12 +546,57 @@ static void run_is_as(const char* tname) {
 
 
 
+// Objects of up to 40 members (beyond the sizes at which sorting, de-duplication and lookup change strategy): range insert,
+// merge, merge_or_update, insert_or_assign, try_emplace and erase against a map model (existing members and the first of
+// duplicate names win where the operation says so)
+template <class Json>
+static void run_wide(const char* tname, int slice, int nslices) {
+    long long idx = 0, done = 0;
+    auto key = [](int i) { char b[8]; snprintf(b, sizeof b, "k%02d", i); return std::string(b); };
+    for (int n = 0; n <= 40; ++n) for (int order = 0; order < 3; ++order) for (int p = 0; p < (n ? n : 1); p += (n > 12 ? 3 : 1)) for (int op = 0; op < 6; ++op) {
+        if ((int)(idx++ % nslices) != slice) continue;
+        Json x(jsoncons::json_object_arg); MV mx = MV::obj();
+        for (int i = 0; i < n; ++i) { int k = order == 0 ? i : (order == 1 ? n - 1 - i : (int)((i * 7LL + 3) % n)); if (order == 2 && n % 7 == 0) k = i; x.try_emplace(key(k), i); m_insert_new<Json>(mx, key(k), MV::int64(i)); }
+        std::string kp = key(n ? p : 0), kq = key(n ? (p * 5 + 1) % n : 1), knew = "new", knew2 = "k99";
+        std::string path = std::string("wide n=") + std::to_string(n) + " order=" + std::to_string(order) + " p=" + std::to_string(p) + " op=" + std::to_string(op);
+        g_fail.clear();
+        try {
+            if (op == 0) {          // range insert: existing members win, the first of repeated names wins
+                std::vector<std::pair<std::string, Json>> src{{kp, Json("n1")}, {knew, Json("x")}, {knew, Json("y")}, {kq, Json("n2")}, {knew2, Json(7)}, {knew2, Json(8)}};
+                for (auto& kv : src) if (!m_find<Json>(mx, kv.first)) m_insert_new<Json>(mx, kv.first, to_mv(kv.second));
+                x.insert(src.begin(), src.end());
+            } else if (op == 1 || op == 2) {   // merge / merge_or_update with an object holding old and new names
+                Json y(jsoncons::json_object_arg); y.try_emplace(kq, "m2"); y.try_emplace(knew, "x"); y.try_emplace(kp, "m1"); y.try_emplace(knew2, 7);
+                MV my = to_mv(y);
+                for (auto& kv : my.o) { MV* e = m_find<Json>(mx, kv.first); if (!e) m_insert_new<Json>(mx, kv.first, kv.second); else if (op == 2) *e = kv.second; }
+                if (op == 1) x.merge(y); else x.merge_or_update(y);
+            } else if (op == 3) {   // insert_or_assign / try_emplace on old and new names
+                for (auto& k : {kp, knew, kq, knew}) { MV* e = m_find<Json>(mx, k); if (e) *e = MV::str("a"); else m_insert_new<Json>(mx, k, MV::str("a")); x.insert_or_assign(k, "a"); }
+                for (auto& k : {kp, knew2}) { if (!m_find<Json>(mx, k)) m_insert_new<Json>(mx, k, MV::str("t")); x.try_emplace(k, "t"); }
+            } else if (op == 4) {   // erase by name, by iterator and by range
+                if (n >= 1) { for (size_t i = 0; i < mx.o.size(); ++i) if (mx.o[i].first == kp) { mx.o.erase(mx.o.begin() + i); break; } x.erase(kp); }
+                if (mx.o.size() >= 3) { mx.o.erase(mx.o.begin() + 1); x.erase(x.object_range().begin() + 1); size_t m = mx.o.size(); mx.o.erase(mx.o.begin() + m / 2, mx.o.end()); x.erase(x.object_range().begin() + m / 2, x.object_range().end()); }
+            } else {                // copy, compare and look up at this size
+                Json c(x); if (!(c == x) || c != x || c < x || x < c) { g_fail = "a copy does not compare equal"; }
+                Json y2 = x; y2.insert_or_assign(knew, 1); if (y2 == x || !(y2 != x) || ((y2 < x) == (x < y2))) { if (g_fail.empty()) g_fail = "values differing in one member compare equal or unordered"; }
+            }
+        } catch (const std::exception& e) { g_fail = std::string("threw ") + e.what(); }
+        if (g_fail.empty()) probe(x, mx, "x");
+        std::string santext; if (san().dirty(santext)) g_fail = "sanitizer report: " + santext;
+        if (!g_fail.empty()) out().viol(std::string("W|") + tname + "|" + std::to_string(n) + "|" + std::to_string(order) + "|" + std::to_string(p) + "|" + std::to_string(op), std::string(tname) + " " + path + " :: " + g_fail);
+        else ++done;
+    }
+    out().count("evaluations", done); out().count("nontrivial", done); out().count("states", done); out().count("transitions", done); out().count("traces_validated", done);
+    out().cls("wide");
+}
+
 int main(int argc, char** argv) {
     Args a(argc, argv);
     san().init();
     if (a.replay) {
         auto p = split(a.sig, '|');
-        if (p.size() >= 3 && p[0] == "S") { if (p[1] == "json") replay_history<json>("json", unhex(p[2])); else replay_history<ojson>("ojson", unhex(p[2])); }
+        if (p.size() >= 3 && p[0] == "W") { if (p[1] == "json") run_wide<json>("json", 0, 1); else run_wide<ojson>("ojson", 0, 1); }
+        else if (p.size() >= 3 && p[0] == "S") { if (p[1] == "json") replay_history<json>("json", unhex(p[2])); else replay_history<ojson>("ojson", unhex(p[2])); }
         else if (p.size() >= 4 && p[0] == "R") {
             size_t i = atoll(p[2].c_str()), j = atoll(p[3].c_str());
             fflush(stdout);
@@ -569,7 +614,8 @@ int main(int argc, char** argv) {
         out().flush(); return 0;
     }
     std::string mode = a.a.empty() ? "" : a.a[0];
-    if (mode == "bfs") { int d = (int)a.geti("depth", 3); if (a.get("type", "json") == "json") run_bfs<json>("json", d, a.slice, a.nslices); else run_bfs<ojson>("ojson", d, a.slice, a.nslices); }
+    if (mode == "wide") { run_wide<json>("json", a.slice, a.nslices); run_wide<ojson>("ojson", a.slice, a.nslices); }
+    else if (mode == "bfs") { int d = (int)a.geti("depth", 3); if (a.get("type", "json") == "json") run_bfs<json>("json", d, a.slice, a.nslices); else run_bfs<ojson>("ojson", d, a.slice, a.nslices); }
     else if (mode == "pairs") { run_pairs<json>("json", a.slice, a.nslices); run_pairs<ojson>("ojson", a.slice, a.nslices); }
     else if (mode == "isas") { if (a.slice == 0) { run_is_as<json>("json"); run_is_as<ojson>("ojson"); } }
     out().flush();
